@@ -457,6 +457,30 @@ where
                 };
                 json!({"cls":"read","res": r})
             }
+            "lentry_get" => {
+                // the entry of an entity through the lending join over entries() alone (an unconstrained join)
+                let mut st = wr::<T>(world);
+                let ents = world.entities();
+                let mut it = st.entries().lend_join();
+                let r = match it.get(e, &ents) {
+                    Some(StorageEntry::Occupied(o)) => o.get().js(),
+                    Some(StorageEntry::Vacant(_)) => absent(),
+                    None => absent(),
+                };
+                json!({"cls":"read","res": r})
+            }
+            "lmaybe_get" => {
+                // lookup by entity through the lending join over (&storage).maybe() alone
+                let st = rd::<T>(world);
+                let ents = world.entities();
+                let mut it = (&st).maybe().lend_join();
+                let r = match it.get(e, &ents) {
+                    Some(Some(c)) => c.js(),
+                    Some(None) => absent(),
+                    None => absent(),
+                };
+                json!({"cls":"read","res": r})
+            }
             // ------------------------------------------------ mutable access
             "get_mut" => {
                 let mut st = wr::<T>(world);
